@@ -240,7 +240,7 @@ PROPS["C12"] = dict(
             dict(name="resubdsinner", mod="core", family="resubdsinner", corr="Corr.CorrResub", check="check12ds", shard=50)],
     level_text='Proved in Coq over every history of publishes (any types), SubscribeWithReplay calls (any ids) and restarts, with the process dying after any individual store operation or handler delivery and any single store operation (append, load offset, open stream, fetch, save offset) failing: the saved offset never moves backwards; every delivery of a persisted event happens while the saved position is below it, so a saved position is never delivered again; nothing at or below a saved position is undelivered and a live subscription is up to date (no loss), and after a restart + SubscribeWithReplay everything persisted of the type has arrived; when nothing fails the delivered positions are strictly increasing over the whole history, of the subscribed type only, and complete (exactly once, in log order); operations on one id neither deliver to nor move the offset of another. REFUTED with a witness (known finding): an event published while SubscribeWithReplay is running is lost for that subscription. The two defects of the pinned code (empty offset saved; LoadOffset error ignored) are stated as refuted for the pinned variant and were repaired by fix: commits. REFUTED with a witness and reproduced on the real bus (known finding F10c, suites resubrace): with two overlapping publishers the live handler saves the offset of the other event, and a crash before that event is handled loses it. The third store: over the durable-streams store (own model Store/ResubDs.v: paged replay, synthetic per-event offsets resuming from the end of the page; suites resubds, resubdsinner on the real store and in-process server) the saved offset is proved monotone and within the log over every history, and "no event is lost when the process dies" is REFUTED with a witness reproduced on the real code (known finding F8d: an interrupted replay skips the rest of the page); no loss is proved there for the histories in which no SubscribeWithReplay is cut short (publishes may still die or fail at any point) and the log fits one page (C12_ds_nothing_lost_when_replays_complete, C12_ds_caught_up_after_resubscribe); and exactly once in log order is proved there for the histories in which nothing fails (C12_ds_exactly_once_in_order, C12_ds_exactly_once_complete). Partial: other concurrent interleavings of publishers are outside the sequential model.',
     level_note='Trusted: Coq kernel + vm_compute; the hand-written model Store/ResubModel.v of SubscribeWithReplay / the live wrappedHandler / persistEvent over an abstract store (log = list, offsets = positions; that the bundled memory and SQLite stores behave so is C10); the Go harness resub.go, whose store wrapper counts ticks exactly as the model does and simulates a dead process by refusing every later store operation; the oracle Corr/CorrResub.v. Not modelled: two goroutines publishing concurrently, upcasters inside the replay, contexts.',
-    rule='cases = seeded random histories (5-14 ops; thorough up to 28) of publishes of two event types, SubscribeWithReplay of three ids (two sharing a type) and restarts (SQLite file: close and reopen the database); 60% of the histories carry crash budgets (22% of ops, budget 0-6 ticks, followed by a restart) and single failing ticks (22% of ops); every history ends with a clean restart and one SubscribeWithReplay per id; family resubinner additionally publishes from inside replay handlers; families resubds / resubdsinner run the same histories over the durable-streams store (in-process server and offsets' store kept across restarts; ticks: append, read per page, save-offset, load-offset, deliveries) against the model Store/ResubDs.v; directed histories run first; the model is compared per operation (deliveries, error, saved positions of all ids, dead flag) and on the final log; non-trivial = every case; distinct = distinct history',
+    rule='cases = seeded random histories (5-14 ops; thorough up to 28) of publishes of two event types, SubscribeWithReplay of three ids (two sharing a type) and restarts (SQLite file: close and reopen the database); 60% of the histories carry crash budgets (22% of ops, budget 0-6 ticks, followed by a restart) and single failing ticks (22% of ops); every history ends with a clean restart and one SubscribeWithReplay per id; family resubinner additionally publishes from inside replay handlers; families resubds / resubdsinner run the same histories over the durable-streams store (in-process server and offset store kept across restarts; ticks: append, read per page, save-offset, load-offset, deliveries) against the model Store/ResubDs.v; directed histories run first; the model is compared per operation (deliveries, error, saved positions of all ids, dead flag) and on the final log; non-trivial = every case; distinct = distinct history',
 )
 PROPS["C13"] = dict(
     title='Persistence failures are contained, reported once and never corrupt the log',
